@@ -95,9 +95,10 @@ class VExc(Value):
     """exception instance: class code (Int term), path (Value: VStr / VNone / VDyn), optional payload"""
     kind = 'exc'
 
-    def __init__(self, cls, path=NONE, origin=None, explicit_path=False):
+    def __init__(self, cls, path=NONE, origin=None, explicit_path=False, from_stream=False):
         self.cls, self.path, self.origin = cls, path, origin
         self.explicit_path = explicit_path
+        self.from_stream = from_stream
 
 
 class VObj(Value):
